@@ -336,7 +336,7 @@ def jobs(tier):
     for st in SETS:
         for rows in (1, 2):
             for given in ("own", "default"):
-                if tier == "quick" and (rows == 2 and st not in ("box", "ball")):
+                if tier == "quick" and (rows == 2 and st not in ("box", "box-per-component", "ball")):
                     continue
                 js.append({"name": f"counterpart-{st}-{rows}-{given}", "kind": "counterpart", "set": st, "rows": rows, "given": given})
     js += [{"name": "no-support", "kind": "no_support"}, {"name": "rule-masks", "kind": "rule_masks"}, {"name": "epigraph", "kind": "epigraph"}]
